@@ -104,3 +104,27 @@ proof!(k23_twin, 6, {
     forget(r);
     assert!(false, "twin-reached");
 });
+
+// ---- extend_usize: the list index rendered in decimal ---------------------------------------------------------
+//@ k23_usize_2d props=C10 tier=probe expect=pass fns=Path::extend_usize :: Path::extend_usize on the root pointer for every index < 100: "/" followed by the index in DECIMAL (one digit below 10, two digits otherwise); position kept
+proof!(k23_usize_2d, 12, {
+    let idx: usize = kani::any();
+    kani::assume(idx < 100);
+    let line: usize = kani::any();
+    let base = Path(String::new(), Location { line, col: 0 });
+    let r = base.extend_usize(idx);
+    let rb = r.0.as_bytes();
+    assert!(rb[0] == b'/');
+    if idx < 10 {
+        assert!(rb.len() == 2);
+        assert!(rb[1] == b'0' + idx as u8);
+    } else {
+        assert!(rb.len() == 3);
+        assert!(rb[1] == b'0' + (idx / 10) as u8);
+        assert!(rb[2] == b'0' + (idx % 10) as u8);
+    }
+    assert!(r.1.line == line);
+    kani::cover!(idx >= 10);
+    forget(base);
+    forget(r);
+});
